@@ -258,3 +258,77 @@ def krylov_svd(idx, rep, rule):
         rep.undecided("gram-operator", rule.role, "no eigen-solver call found")
 
 
+
+
+def _shape_rel(test, a):
+    """relation between rows and columns of operator `a` stated by a comparison of a.shape[0] and a.shape[1]:
+    one of 'r<c', 'r<=c', 'r>c', 'r>=c', 'r==c', 'r!=c' or None"""
+    if not (isinstance(test, ast.Compare) and len(test.ops) == 1):
+        return None
+    def axis(e):
+        if isinstance(e, ast.Subscript) and isinstance(e.value, ast.Attribute) and e.value.attr == "shape" and isinstance(e.value.value, ast.Name) and e.value.value.id == a:
+            i = e.slice
+            v = i.value if isinstance(i, ast.Constant) else (-i.operand.value if isinstance(i, ast.UnaryOp) and isinstance(i.op, ast.USub) and isinstance(i.operand, ast.Constant) else None)
+            return {0: "r", -2: "r", 1: "c", -1: "c"}.get(v)
+        return None
+    l, r = axis(test.left), axis(test.comparators[0])
+    if l is None or r is None or l == r:
+        return None
+    op = {ast.Lt: "<", ast.LtE: "<=", ast.Gt: ">", ast.GtE: ">=", ast.Eq: "==", ast.NotEq: "!="}.get(type(test.ops[0]))
+    if op is None:
+        return None
+    if l == "c":  # mirror to rows on the left
+        op = {"<": ">", "<=": ">=", ">": "<", ">=": "<=", "==": "==", "!=": "!="}[op]
+    return f"r{op}c"
+
+
+def gram_side(idx, rep, rule_name="gram-side"):
+    """A Krylov svd rule takes the eigenpairs of a Gram matrix and obtains the other factor by back substitution through inv(Sigma).
+    A^H A is n-by-n and A A^H is m-by-m: the one on the LONGER side of a non-square A is singular (|m - n| zero eigenvalues), so a
+    request that reaches the bottom of its spectrum (which='SM', or more pairs than min(m, n)) selects zero singular values, the back
+    substitution divides by them, and the factor that is then wrapped in Unitary is not orthonormal.  On the branch a solver call sits
+    in, the shape relation established by the enclosing conditions must put the Gram matrix on the shorter side."""
+    mods = frozenset(idx.closure([m for m in idx.optional_modules() if m.endswith(".svd.svd")]))
+    res = Resolver(idx, mods)
+    n = 0
+    for rule in res.rules_of("svd"):
+        if sorted(rule.types[-1]) not in (["Lanczos"], ["LOBPCG"]):
+            continue
+        fi, a = rule.func, rule.params[0][0]
+        A = sym(a)
+        te = TermEval(idx)
+        for c in df.calls(fi.node):
+            if ast.unparse(c.func) not in ("lanczos_eigs", "lobpcg") or not c.args:
+                continue
+            ts = [norm(x) for x in te.eval_correlated(fi, c.args[0], {})]
+            kinds_ = {("HA·A" if x == norm(MUL(H(A), A)) else ("A·HA" if x == norm(MUL(A, H(A))) else None)) for y in ts for x in alternatives(y)}
+            if len(kinds_) != 1 or None in kinds_:
+                continue  # gram-operator (C16) reports an unrecognised argument
+            kind = next(iter(kinds_))
+            n += 1
+            rels = {}
+            for t, pol in df.branch_conditions(c, fi.node):
+                r = _shape_rel(t, a)
+                if r is None:
+                    continue
+                if not pol:
+                    r = {"r<c": "r>=c", "r<=c": "r>c", "r>c": "r<=c", "r>=c": "r<c", "r==c": "r!=c", "r!=c": "r==c"}[r]
+                rels[r] = ast.unparse(t)
+            side = "columns" if kind == "HA·A" else "rows"
+            good = {"r>=c", "r>c", "r==c"} if kind == "HA·A" else {"r<=c", "r<c", "r==c"}
+            bad = {"r<c", "r<=c"} if kind == "HA·A" else {"r>c", "r>=c"}
+            construct = f"{rule.role}:{kind}"
+            loc = [idx.loc(fi.module, c)]
+            gram_txt = f"{a}^H {a}" if kind == "HA·A" else f"{a} {a}^H"
+            if set(rels) & good:
+                rep.proved(rule_name, construct, f"the Gram matrix {gram_txt} (size = number of {side}) is used where `{rels[next(iter(set(rels) & good))]}` "
+                           f"makes the {side} the shorter side", locs=loc)
+            elif set(rels) & bad:
+                rep.refuted(rule_name, construct, f"the Gram matrix {gram_txt} (size = number of {side}) is used on the branch where the {side} are the LONGER side "
+                            f"(`{rels[next(iter(set(rels) & bad))]}`): it is singular there, a selection from the bottom of its spectrum yields zero singular values and the "
+                            "back-substituted factor wrapped in Unitary is not orthonormal", detail="longer-side", locs=loc)
+            else:
+                rep.refuted(rule_name, construct, f"the Gram matrix {gram_txt} (size = number of {side}) is used whatever the shape of {a}: for an operator with more {side} "
+                            "than the other dimension it is singular, a selection from the bottom of its spectrum yields zero singular values and the back-substituted "
+                            "factor wrapped in Unitary is not orthonormal", detail="unconditional", locs=loc)
+    return n
